@@ -67,13 +67,6 @@ module N =
     | Gt -> false
     | _ -> true
 
-  (** val ltb : coq_N -> coq_N -> bool **)
-
-  let ltb x y =
-    match compare x y with
-    | Lt -> true
-    | _ -> false
-
   (** val pos_div_eucl : positive -> coq_N -> coq_N * coq_N **)
 
   let rec pos_div_eucl a b =
@@ -107,12 +100,6 @@ module N =
 
   let modulo a b =
     snd (div_eucl a b)
-
-  (** val to_nat : coq_N -> nat **)
-
-  let to_nat = function
-  | N0 -> O
-  | Npos p -> Pos.to_nat p
 
   (** val eq_dec : coq_N -> coq_N -> bool **)
 
